@@ -539,7 +539,51 @@ func (p *Program) constantTableGlobal(g *ssa.Global) bool {
 						case *ssa.Const, *ssa.Function, *ssa.Global:
 							return true
 						case *ssa.MakeClosure:
-							return len(y.Bindings) == 0
+							for _, b := range y.Bindings {
+								if !pure(b, d+1) {
+									return false
+								}
+							}
+							return true
+						case *ssa.Parameter:
+							return true // of an adapter whose call is judged below: the arguments are checked there
+						case *ssa.Call:
+							// an adapter of the package that only wraps its arguments (func literal around a constructor, a
+							// conversion): no call in its body, arguments built without calls
+							sc := y.Common().StaticCallee()
+							if sc != nil && sc.Origin() != nil {
+								sc = sc.Origin() // the generic body behind an instantiation wrapper
+							}
+							if sc == nil || !p.inRapid(sc) || sc.Blocks == nil || len(sc.Blocks) != 1 {
+								return false
+							}
+							for _, in3 := range sc.Blocks[0].Instrs {
+								switch z := in3.(type) {
+								case *ssa.MakeClosure, *ssa.Convert, *ssa.ChangeType, *ssa.MakeInterface, *ssa.DebugRef, *ssa.Alloc:
+								case *ssa.Store: // a captured parameter is spilled into its cell
+									if _, isCell := z.Addr.(*ssa.Alloc); !isCell || !pure(z.Val, d+1) {
+										return false
+									}
+								case *ssa.Call: // an instantiation wrapper calls the generic body
+									if !pure(z, d+1) {
+										return false
+									}
+								case *ssa.Return:
+									for _, rv := range z.Results {
+										if !pure(rv, d+1) {
+											return false
+										}
+									}
+								default:
+									return false
+								}
+							}
+							for _, a := range y.Common().Args {
+								if !pure(a, d+1) {
+									return false
+								}
+							}
+							return true
 						case *ssa.MakeMap, *ssa.MakeSlice, *ssa.Alloc, *ssa.Slice, *ssa.Convert, *ssa.ChangeType, *ssa.MakeInterface, *ssa.IndexAddr, *ssa.FieldAddr, *ssa.UnOp, *ssa.BinOp:
 							in2 := v.(ssa.Instruction)
 							for _, op := range in2.Operands(nil) {
@@ -574,6 +618,43 @@ func (p *Program) constantTableGlobal(g *ssa.Global) bool {
 						return false
 					}
 					okInit = true
+				case *ssa.IndexAddr, *ssa.FieldAddr:
+					// an array / struct variable is initialised and read element by element through derived addresses
+					var addrOK func(a ssa.Value, d int) bool
+					addrOK = func(a ssa.Value, d int) bool {
+						if d > 6 || a.Referrers() == nil {
+							return d <= 6
+						}
+						for _, ref := range *a.Referrers() {
+							switch y := ref.(type) {
+							case *ssa.IndexAddr, *ssa.FieldAddr:
+								if !addrOK(y.(ssa.Value), d+1) {
+									return false
+								}
+							case *ssa.UnOp:
+								if y.Op != token.MUL || (!inInit && !plainData(y.Type()) && !readOnlyUse(y)) {
+									return false
+								}
+							case *ssa.Store:
+								if !inInit || y.Addr != a {
+									return false
+								}
+								switch y.Val.(type) {
+								case *ssa.Const, *ssa.Function:
+									okInit = true
+								default:
+									return false
+								}
+							case *ssa.DebugRef:
+							default:
+								return false
+							}
+						}
+						return true
+					}
+					if !addrOK(x.(ssa.Value), 0) {
+						return false
+					}
 				case *ssa.DebugRef:
 				default:
 					return false
@@ -582,4 +663,93 @@ func (p *Program) constantTableGlobal(g *ssa.Global) bool {
 		}
 	}
 	return okInit
+}
+
+// plainData: values of the type hold no reference to storage shared with other holders (no pointer, slice, map,
+// channel, function or interface inside): a loaded copy cannot be used to change the original.
+func plainData(t types.Type) bool {
+	switch u := t.Underlying().(type) {
+	case *types.Basic:
+		return u.Kind() != types.UnsafePointer
+	case *types.Array:
+		return plainData(u.Elem())
+	case *types.Struct:
+		for i := 0; i < u.NumFields(); i++ {
+			if !plainData(u.Field(i).Type()) {
+				return false
+			}
+		}
+		return true
+	}
+	return false
+}
+
+// localCallees: the functions a dynamic call can reach when its function value is built locally from functions of the
+// analysed package only — a function, a literal, a method value, or a phi of such (a method value selected before a
+// loop). nil if any source is not of that kind (a parameter, a field, a foreign function): the call then stays opaque.
+func (p *Program) localCallees(c *ssa.CallCommon) []*ssa.Function {
+	if c.IsInvoke() || c.StaticCallee() != nil {
+		return nil
+	}
+	var out []*ssa.Function
+	seen := map[ssa.Value]bool{}
+	var walk func(v ssa.Value, d int) bool
+	walk = func(v ssa.Value, d int) bool {
+		if v == nil || d > 6 {
+			return false
+		}
+		if seen[v] {
+			return true
+		}
+		seen[v] = true
+		switch x := v.(type) {
+		case *ssa.Function:
+			if !p.inRapid(x) {
+				return false
+			}
+			out = append(out, x)
+			return true
+		case *ssa.MakeClosure:
+			f, _ := x.Fn.(*ssa.Function)
+			if f == nil || !p.inRapid(f) {
+				return false
+			}
+			if strings.HasSuffix(f.Name(), "$bound") {
+				// the method behind a bound-method wrapper
+				for _, b := range f.Blocks {
+					for _, in := range b.Instrs {
+						if ci, ok := in.(ssa.CallInstruction); ok {
+							if sc := ci.Common().StaticCallee(); sc != nil && p.inRapid(sc) {
+								if o := sc.Origin(); o != nil {
+									sc = o
+								}
+								out = append(out, sc)
+								return true
+							}
+						}
+					}
+				}
+				return false
+			}
+			out = append(out, f)
+			return true
+		case *ssa.Phi:
+			for _, e := range x.Edges {
+				if !walk(e, d+1) {
+					return false
+				}
+			}
+			return true
+		case *ssa.ChangeType:
+			return walk(x.X, d+1)
+		}
+		if rv := p.resolve(v); rv != v {
+			return walk(rv, d+1)
+		}
+		return false
+	}
+	if !walk(c.Value, 0) || len(out) == 0 {
+		return nil
+	}
+	return out
 }
